@@ -1,6 +1,6 @@
 """C06  Stripes recorded as synced always have valid parity (runtime check of the invariant
 with an independent oracle after every command of generated histories)."""
-import os, vlib, e2e, sim
+import os, vlib, e2e, sim, fixcommon as fx
 
 STATIC_THEOREMS = [
     'SnapraidVerif.Props.C06.inv_init',
@@ -9,6 +9,7 @@ STATIC_THEOREMS = [
     'SnapraidVerif.Props.C06.extent_wf_alloc',
     'SnapraidVerif.Alloc.allocFile_spec',
     'SnapraidVerif.Alloc.alloc_two_disjoint',
+    'SnapraidVerif.Alloc.removeAt_blocks',
 ]
 
 def commands(rng, s):
@@ -60,7 +61,39 @@ def one_history(exe, root, seed, steps, chk, stats):
     r = s.sync(*force)
     for step in range(steps):
         s.fs_random(1 + rng.below(5))
+        if rng.chance(1, 5):
+            # a silent error: one byte of a file changes, size and time-stamp stay (the harness keeps the recorded bytes)
+            # only in files that are recorded and fully hashed as they are now: changing a file that was never read by a
+            # sync is not a silent error, it is just other content
+            fl = []
+            if os.path.exists(a.contents[0]):
+                dsil = fx.decode(a)
+                if dsil.ok:
+                    for f in dsil.files:
+                        dn = dsil.maps[f['mapping']][0].decode('latin-1'); rel = os.fsdecode(f['sub']); pth = a.path(dn, rel)
+                        if f['size'] > 0 and all(b[1] == 'b' for b in f['blocks']) and os.path.isfile(pth) and not os.path.islink(pth):
+                            stq = os.stat(pth)
+                            if stq.st_size == f['size'] and stq.st_mtime_ns == f['sec'] * 10**9 + max(0, f['nsec'] - 1) and f['nsec'] != 0:
+                                fl.append((dn, rel))
+            if fl:
+                s.remember()
+                d0, r0 = rng.choice(fl); p0 = a.path(d0, r0); st0 = os.stat(p0)
+                with open(p0, 'r+b') as f:
+                    off = rng.below(st0.st_size); f.seek(off); c = f.read(1); f.seek(off); f.write(bytes([c[0] ^ (1 << rng.below(8))]))
+                os.utime(p0, ns=(st0.st_mtime_ns, st0.st_mtime_ns))
+                s.log('silent error in %s/%r at offset %d (for the next command only)' % (d0, r0, off)); stats['silent_errors'] = stats.get('silent_errors', 0) + 1
+                heal = (p0, off, c, st0)
+        else:
+            heal = None
         name, r = commands(rng, s)
+        if locals().get('heal'):
+            # the error is taken back after the command (the harness tracks file versions by path, size and time-stamp: a
+            # corrupted file that is later moved or copied would be taken for a new version)
+            p0, off, c, st0 = heal
+            if os.path.isfile(p0) and not os.path.islink(p0) and os.stat(p0).st_size == st0.st_size and os.stat(p0).st_mtime_ns == st0.st_mtime_ns:
+                with open(p0, 'r+b') as f: f.seek(off); f.write(c)
+                os.utime(p0, ns=(st0.st_mtime_ns, st0.st_mtime_ns))
+            heal = None
         stats['commands'][name] = stats['commands'].get(name, 0) + 1
         if not os.path.exists(a.contents[0]):
             continue
@@ -162,7 +195,7 @@ def main(tier, seed):
             chk.violation('C06 static obligation failed: ' + o[0], o[0] + '\n' + o[2], False, 'static')
     chk.evaluations = stats.get('checked_levels', 0)
     chk.distinct = stats.get('synced_stripes', 0)
-    chk.rule = ('%d seeded histories x %d commands from {sync, -B, -S -B, kill-after-sync, -h, -F, -R, forced autosave, scrub, fix (filtered), touch, rehash} interleaved with 1-5 random file operations; after EVERY command the content file is decoded by the Lean decoder and, for every stripe whose allocated blocks are all BLK, parity of every level is recomputed by the Lean genSpec from the harness version store and compared with the parity files; extent well-formedness checked on the decoded map. plus %d emptied-disk histories (partial sync -E -B k after a disk lost all its files) and %d come-back histories (files deleted, parity updated by a sync killed before the content save, the same bytes restored, plain sync). evaluations = stripe-levels compared, distinct_nontrivial = fully synced stripes examined' % (nhist, steps, nem, ncb))
+    chk.rule = ('%d seeded histories x %d commands from {sync, -B, -S -B, kill-after-sync, -h, -F, -R, forced autosave, scrub, fix (filtered), touch, rehash} interleaved with 1-5 random file operations; after EVERY command the content file is decoded by the Lean decoder and, for every stripe whose allocated blocks are all BLK, parity of every level is recomputed by the Lean genSpec from the harness version store and compared with the parity files; extent well-formedness checked on the decoded map. plus %d emptied-disk histories (partial sync -E -B k after a disk lost all its files) and %d come-back histories (files deleted, parity updated by a sync killed before the content save, the same bytes restored, plain sync). evaluations = stripe-levels compared, distinct_nontrivial = fully synced stripes examined; the histories include fix restricted to a block range and silent errors (one byte of a fully hashed file, for one command)' % (nhist, steps, nem, ncb))
     chk.samples = [dict(stats)]
     chk.corr['E2E-INV'] = {k: v for k, v in stats.items() if k != 'commands'}
     chk.extra['command_distribution'] = stats['commands']
